@@ -149,6 +149,10 @@ func alphabet() []stmt {
 		{Kind: "construct", S: B("?s"), Pairs: []pair{{CP(Q), B("?o")}, {CP(model.PI("w")), tterm{O: model.OL(bqlm.LInt)}}}, Into: []string{"?b"}, From: []string{"?a"}, Where: pw},
 		// reification, temporal fact, extra pair with a binding
 		{Kind: "construct", S: B("?s"), Pairs: []pair{{tterm{ID: "q", Anchor: "?t"}, B("?o")}, {CP(model.PI("w")), B("?s")}}, Into: []string{"?c"}, From: []string{"?a", "?b"}, Where: tw},
+		// anchor binding in OBJECT position of the template (a predicate-valued object built per row), plain and with ';'
+		{Kind: "construct", S: B("?s"), Pairs: []pair{{CP(Q), tterm{ID: "r", Anchor: "?t"}}}, Into: []string{"?c"}, From: []string{"?a", "?b"}, Where: tw},
+		{Kind: "construct", S: B("?s"), Pairs: []pair{{CP(Q), B("?o")}, {CP(model.PI("w")), tterm{ID: "r", Anchor: "?t"}}}, Into: []string{"?b"}, From: []string{"?a"}, Where: tw},
+		{Kind: "deconstruct", S: B("?s"), Pairs: []pair{{CP(Q), tterm{ID: "r", Anchor: "?t"}}}, Into: []string{"?c"}, From: []string{"?a", "?b"}, Where: tw},
 		// reification whose reified fact is the same for every solution row (constant, or built from a part of the
 		// row's bindings): still one fresh blank node per row, each with that row's extra fact
 		{Kind: "construct", S: tterm{N: c}, Pairs: []pair{{CP(Q), tterm{O: model.OL(bqlm.LText)}}, {CP(model.PI("w")), B("?o")}}, Into: []string{"?b"}, From: []string{"?a"}, Where: pw},
